@@ -30,6 +30,8 @@ class Path:
 
 
 class PathCtx:
+    deadline = None
+
     def __init__(self, pre, decisions, timeout_ms):
         self.pre = list(pre)
         self.decisions = decisions  # list of [value, has_alternative]
@@ -59,6 +61,11 @@ class PathCtx:
         for lit in self.pc:
             if lit is nb:
                 return False
+        if self.deadline is not None:
+            import time as _time
+
+            if _time.time() > self.deadline:
+                raise PathCapExceeded("time budget of the exploration exceeded")
         if self.idx < len(self.decisions):
             val = self.decisions[self.idx][0]
             self.idx += 1
@@ -84,7 +91,7 @@ class PathCtx:
         return val
 
 
-def explore(fn, pre=(), max_paths=4096, timeout_ms=10000, catch=(Exception,)):
+def explore(fn, pre=(), max_paths=4096, timeout_ms=10000, catch=(Exception,), budget_s=None):
     """Run ``fn()`` on every feasible path.  Returns list[Path].
 
     Exceptions of the classes in ``catch`` raised by the code under analysis are
@@ -92,8 +99,12 @@ def explore(fn, pre=(), max_paths=4096, timeout_ms=10000, catch=(Exception,)):
     """
     paths = []
     decisions = []
+    import time as _time
+
+    deadline = (_time.time() + budget_s) if budget_s else None
     while True:
         ctx = PathCtx(pre, decisions, timeout_ms)
+        ctx.deadline = deadline
         old = sym.CTX
         sym.CTX = ctx
         result = exc = None
@@ -102,7 +113,7 @@ def explore(fn, pre=(), max_paths=4096, timeout_ms=10000, catch=(Exception,)):
             result = fn()
         except Infeasible:
             infeasible = True
-        except OutOfReach:
+        except (OutOfReach, PathCapExceeded):
             raise
         except catch as e:  # noqa
             exc = e
